@@ -31,6 +31,11 @@ Sources and accepted idioms (anything else raises TranslateError = broken tie):
                         the function), vnadata_load.c (between the call of vnadata_load_common and "if (rv == -1)")
                         -> gen_cleanup_calls (function, callee names); none of these paths may assign errno
 
+  order of checks and writes, handle tests
+                        translate/errno_orders.py (imported here): for every modelled API function the order of its
+                        handle tests, refusing argument checks, early exits and writes (gen_order_<f>) and whether its NULL
+                        test precedes every dereference / the magic number is tested (gen_handle_<f>); see that file
+
 Output: coq/Gen/ErrnoGen.v (never committed).
 """
 import os
